@@ -132,7 +132,7 @@ template <int K, std::size_t N> struct Info<Payload<K, N>> { static constexpr in
 using Data = eventpp::AnyData<VH_CAP>;
 constexpr std::size_t LS = sizeof(eventpp::anydata_internal_::LargeData);
 constexpr std::size_t E = (VH_CAP < LS ? LS : (std::size_t)VH_CAP);
-static_assert(E == Data::maxSize, "the harness and AnyData disagree on the effective capacity");
+// E only selects which payload sizes are instantiated; what AnyData itself computes is Data::maxSize
 
 template <typename ...Ts> struct TypeList {};
 
@@ -451,7 +451,7 @@ void printMsz(TypeList<L, Ls...>, int k)
 int main(int argc, char ** argv)
 {
 	if(argc > 1 && std::string(argv[1]) == "--meta") {
-		std::printf("cap %d\nlarge %zu\neff %zu\nsizeof %zu\n", (int)VH_CAP, LS, E, sizeof(Data));
+		std::printf("cap %d\nlarge %zu\neff %zu\nmaxsize %zu\nsizeof %zu\n", (int)VH_CAP, LS, E, (std::size_t)Data::maxSize, sizeof(Data));
 		printTypes(Types());
 		printMsz(MszLists(), 0);
 		return 0;
